@@ -571,6 +571,23 @@ def check_lookup(cx: Cx, fn_q: str, container: Term, key: Term, exc: str, throw:
         cx.inconclusive(rule, fn.qualname, f"lookup branches found: {sorted(seen)}", where=cx.where(fn), function=fn.qualname)
 
 
+def backing_field(cx: Cx, cls_q: str, prop: str, default: str) -> str:
+    """The private field behind the documented view property `prop` of class `cls_q` (its getter is `return self.<field>`); the
+    name this analysis was written against when the getter has another shape."""
+    ci = cx.prog.cls(cls_q)
+    for m in cx.prog.lookup_method(ci, prop):
+        if not m.is_property or not m.params:
+            continue
+        body = [s for s in m.node.body if not (isinstance(s, ast.Expr) and isinstance(s.value, ast.Constant))]
+        if len(body) == 1 and isinstance(body[0], ast.Return) and isinstance(body[0].value, ast.Attribute) \
+                and isinstance(body[0].value.value, ast.Name) and body[0].value.value.id == m.params[0]:
+            f = body[0].value.attr
+            STATE_FIELDS.add(f)
+            REGISTRY_FIELDS.add((cls_q, f)) if prop == 'components' else None
+            return f
+    return default
+
+
 # ---------------------------------------------------------------------------------------------- purity / iteration
 STATE_FIELDS = {'agents', 'components', 'cells', 'component_pools', 'systems', 'execution_queue', 'timestep', '_status', 'records',
                 '_components', '_tag', 'tag', '_tag_names', '_tag_counter', '__dict__', '_parameters', '_index_offset', 'width', 'height',
@@ -718,6 +735,12 @@ class ListFacts:
     key: Term = None               # for dictionaries: the key, expressed over base_var
 
 
+def loop_key(node):
+    """A loop of the function, or of a generator expanded in place at one call site."""
+    site = getattr(node, '_exp_site', None)
+    return node.lineno if site is None else (node.lineno, site)
+
+
 def _loop_stage_table(paths: List[Path]):
     """For every `for` loop that appends to a list allocated in the activation: the loop variable, the appended element,
     and the disjunction over all paths of the in-iteration conditions under which the append happens."""
@@ -738,7 +761,7 @@ def _loop_stage_table(paths: List[Path]):
             apps = [e for e in seg if e.kind == 'store' and e.data.get('store') in ('append', 'setitem') and
                     isinstance(strip_versions(e.data.get('target')), Fresh) and len(e.loops) == depth]
             early = any(e.data.get('how') != 'exhausted' for e in ends)
-            row = table.setdefault(lp.node.lineno, {'var': None, 'info': iters[0].data['info'], 'src': lp.data.get('iter'), 'appended': {},
+            row = table.setdefault(loop_key(lp.node), {'var': None, 'info': iters[0].data['info'], 'src': lp.data.get('iter'), 'appended': {},
                                                     'dropped': [], 'early': False, 'multi': False})
             row['early'] = row['early'] or early
             if len(apps) > 1:
@@ -778,7 +801,7 @@ def list_facts(paths: List[Path], p: Path, L: Term, is_base, _table=None, _depth
         skey = L.detail.key
     elif isinstance(L, Fresh) and L.kind in ('list', 'call:list', 'dict', 'call:dict') and not L.items:
         rows = [(ln, r) for ln, r in table.items() if (L.kind, L.site) in r['appended']]
-        on_path = {e.node.lineno for e in p.events if e.kind == 'loop'}
+        on_path = {loop_key(e.node) for e in p.events if e.kind == 'loop'}
         rows = [(ln, r) for ln, r in rows if ln in on_path]
         if not rows:
             # never filled on this path: an empty list
@@ -798,7 +821,7 @@ def list_facts(paths: List[Path], p: Path, L: Term, is_base, _table=None, _depth
             var = info.get('index')
         else:
             var = info.get('var')
-        here = [e for e in p.events if e.kind == 'loop' and e.node.lineno == ln]
+        here = [e for e in p.events if e.kind == 'loop' and loop_key(e.node) == ln]
         src_here = here[0].data.get('iter') if here else r['src']
         stage = ('loop', var, src_here, f_or(*slot['conds']), slot['elem'])
         skey = slot.get('key')
@@ -867,6 +890,53 @@ def check_overrides_forward(cx: Cx, cls_q: str, names: List[str], rule='R-FWD'):
     return n
 
 
+def check_deprecated_aliases_forward(cx: Cx, cls_q: str, rule='R-FWD', only=None):
+    """The deprecated camelCase spellings of the documented operations of `cls_q` are the same operations: each hands every one of
+    its own arguments on, unchanged, to one method of the receiver (a dropped `throw_error` turns the strict look-up into the
+    lenient one for everybody who still uses the old spelling)."""
+    ci = cx.prog.cls(cls_q)
+    n = 0
+    for name, fns in sorted(ci.methods.items()):
+        fn = fns[0]
+        decos = [ast.unparse(d) for d in getattr(fn.node, 'decorator_list', [])]
+        if not any(d.startswith('deprecated') for d in decos) or fn.is_property or (only is not None and name not in only):
+            continue
+        n += 1
+        selfn = Sym(fn.params[0]) if fn.params else None
+        own = list(fn.params[1:]) + list(fn.kwonly)
+        bad = None
+        for p in cx.walker.paths(fn, WalkOptions(unroll=1, callee_raises=False, inline_depth=0)):
+            if p.end == 'raise':
+                continue
+            calls = [e for e in p.events if e.kind == 'call' and e.data.get('target_kind') == 'pkg' and e.data.get('targets')
+                     and strip_versions(e.data.get('recv')) == selfn]
+            if len(calls) != 1:
+                bad = f"calls {len(calls)} methods of the receiver on a path"
+                break
+            callee = calls[0].data['targets'][0]
+            from sa.walker import _Ctx, State
+            b = _Ctx(cx.walker, fn, WalkOptions()).bind_args(callee, calls[0].data.get('recv'), list(calls[0].data.get('args', ())),
+                                                            dict(calls[0].data.get('kw', ())), State(), True)
+            if b is None:
+                bad = f"the call of {callee.name} does not bind"
+                break
+            passed = {v.name for v in b.values() if isinstance(v, Sym)}
+            if fn.vararg and callee.vararg and b.get(callee.vararg) == Sym('*' + fn.vararg):
+                passed.add(fn.vararg)
+            lost = [q for q in own if q not in passed]
+            moved = [q for q in callee.params[1:] if q in own and b.get(q) != Sym(q)]
+            if lost or moved:
+                bad = (f"does not hand {lost} on to {callee.name}" if lost else f"passes something else than its own {moved} to {callee.name}")
+                break
+        if bad:
+            cx.violation(rule, fn.qualname, f"deprecated-alias-forwards-its-arguments",
+                         f"{fn.qualname} (the deprecated spelling) {bad}: the old spelling no longer is the documented operation",
+                         where=cx.where(fn))
+        else:
+            cx.ok(rule, f"{fn.qualname} forwards all its arguments to one method of the receiver", where=cx.where(fn), function=fn.qualname)
+    return n
+
+
 def known_empty_on(path_cond, container: Term) -> bool:
     """The path has established that `container` is empty (`if not d:` / `len(d) == 0`): an answer of "nothing" is then the
     zero-iteration case of any scan of it."""
@@ -925,7 +995,21 @@ def _immutable_module_value(mod, v: ast.expr, seen=()) -> bool:
         root = v
         while isinstance(root, ast.Attribute):
             root = root.value
+        if isinstance(root, ast.Name) and root.id in mod.classes and isinstance(v.value, ast.Name):
+            # Enum.MEMBER of an enum declared in this module: a singleton constant
+            ci_ = mod.classes[root.id]
+            return any((b if isinstance(b, str) else getattr(b, 'qualname', '')).rsplit('.', 1)[-1] in ('Enum', 'IntEnum', 'Flag', 'IntFlag', 'StrEnum')
+                       for b in ci_.bases)
         return isinstance(root, ast.Name) and root.id in mod.imports
+    if isinstance(v, ast.Call) and isinstance(v.func, ast.Name) and v.func.id in ('frozenset', 'tuple', 'float', 'int', 'str', 'object') \
+            and v.func.id not in mod.assigns and v.func.id not in mod.functions and not v.keywords and len(v.args) <= 1:
+        # an immutable collection / number / marker object built once from immutable elements
+        a0 = v.args[0] if v.args else None
+        if a0 is None:
+            return True
+        if isinstance(a0, (ast.Set, ast.List, ast.Tuple)):
+            return all(_immutable_module_value(mod, x, seen) for x in a0.elts)
+        return _immutable_module_value(mod, a0, seen)
     if isinstance(v, ast.Subscript):
         root = v.value
         while isinstance(root, ast.Attribute):
